@@ -519,12 +519,14 @@ fn family_pos(out: &mut Vec<Case>) {
         // C07: the same positions without the wx:if user (a field read by a structural attribute has no binding-map
         // entry at all); here every field keeps its entry, and the single-field phase of the harness applies
         let tpl = format!(
-            "<div {} w=\"p{{{{ {} }}}}q\" {} {} {} {} {}>{{{{ {} }}}}</div>x{{{{ {} }}}}y",
-            attr("v", &s), s, attr("data-k", &s), attr("mark:k", &s), attr("class", &s), attr("style", &s), attr("id", &s), s, s
+            "<div {} w=\"p{{{{ {} }}}}q\" {} {} {} {} {} {} {}>{{{{ {} }}}}</div>x{{{{ {} }}}}y",
+            attr("v", &s), s, attr("data-k", &s), attr("mark:k", &s), attr("class", &s), attr("style", &s), attr("id", &s), attr("bind:tap", &s), attr("capture-catch:x", &s), s, s
         );
+        // vl:<event> = the listeners attached for the event after all calls so far (a dynamic handler REPLACES its predecessor)
         let checks = vec![
             ("r:v", r.clone(), false), ("r:w", format!("'p' + $str({}) + 'q'", r), false), ("d:k", r.clone(), false), ("m:k", r.clone(), false),
             ("c", r.clone(), false), ("y", r.clone(), false), ("i", r.clone(), false), ("t", format!("[$str({r}), 'x' + $str({r}) + 'y']", r = r), true),
+            ("vl:tap", format!("[{}]", r), false), ("vl:x", format!("[{}]", r), false),
         ];
         out.push(Case::Eval(ev("bmap", tpl, checks, vars, pool, pick)));
     }
@@ -832,7 +834,7 @@ fn shape_src(nodes: &[Nd], pe: &str) -> String {
     let mut s = String::new();
     for n in nodes {
         match n {
-            Nd::Probe => s += &format!("<p {}/>", attr("v", pe)),
+            Nd::Probe => s += &format!("<p {} {} {}/>", attr("v", pe), attr("mark:k", pe), attr("data-k", pe)),
             Nd::SlotProbe => s += &format!("<slot {}/>", attr("v", pe)),
             Nd::If(a, b) => s += &format!("<block wx:if=\"{{{{ $t }}}}\">{}</block><block wx:else>{}</block>", shape_src(a, pe), shape_src(b, pe)),
             Nd::Else(a, b, c) => s += &format!("<block wx:if=\"{{{{ $z }}}}\">{}</block><block wx:elif=\"{{{{ $n }}}}\">{}</block><block wx:else>{}</block>", shape_src(a, pe), shape_src(b, pe), shape_src(c, pe)),
@@ -845,7 +847,7 @@ fn shape_src(nodes: &[Nd], pe: &str) -> String {
                     if let Some(x) = index { s += &format!(" wx:for-index=\"{}\"", x); }
                 }
                 for (k, a) in slots { match a { Some(a) => s += &format!(" slot:{}=\"{}\"", k, a), None => s += &format!(" slot:{}", k) } }
-                if *own { s += &format!(" {}", attr("v", pe)); }
+                if *own { s += &format!(" {} {} {}", attr("v", pe), attr("mark:k", pe), attr("data-k", pe)); }
                 s += &format!(">{}</{}>", shape_src(kids, pe), tag);
             }
         }
@@ -961,7 +963,7 @@ fn family_c05(out: &mut Vec<Case>) {
             for k in sh.names.iter().chain(sh.modules.iter()) { put(k, js(&format!("data:{}", k))); }
             for (k, enc) in [("l0", "[10,20]"), ("l1", "[[1,2],[3]]"), ("$t", "true"), ("$z", "0"), ("$n", "null"), ("$f", FN), ("$o", r#"{"$":"echo"}"#)] { put(k, parse_json(enc).unwrap()); }
             let n = vars.len();
-            let mut c = ev("c05", tpl, vec![("r:v", rp, true), ("l:v", rs, true)], vars, pool, Pick::Tuples(vec![(0..n).collect()]));
+            let mut c = ev("c05", tpl, vec![("r:v", rp.clone(), true), ("m:k", rp.clone(), true), ("d:k", rp, true), ("l:v", rs, true)], vars, pool, Pick::Tuples(vec![(0..n).collect()]));
             c.path = format!("c05/{}/{}", sh.label, fi);
             out.push(Case::Eval(c));
         }
